@@ -150,6 +150,7 @@ def gen_config(rng, i, nsteps, force=None):
     if "gravity" in feat:
         cfg["gravity"] = dict(position=[anc[j] + rng.uniform(-0.5, 1.5) * box[j] for j in range(3)], mass=rng.choice([1.e12, 1.e14]) * min(box) ** 3)
     cfg["feature"] = feat
+    cfg["thread_pairs"] = rng.sample([(2, 4), (4, 2), (3, 3), (8, 1), (1, 3), (2, 2), (4, 3)], 2)
     cfg["blocks"] = make_blocks(rng, [box[j] for j in range(3)]) if True else ""
     # blocks are placed relative to the anchor
     cfg["blocks"] = shift_blocks(cfg["blocks"], anc)
@@ -192,7 +193,7 @@ class Runner:
         self.param = param_text(cfg)
         self.nruns = 0
 
-    def run(self, d, args, env=None, stopfile=False, timeout=120):
+    def run(self, d, args, env=None, stopfile=False, timeout=120, threads=1):
         d = os.path.join(self.root, d)
         os.makedirs(d, exist_ok=True)
         with open(os.path.join(d, "blocks.yml"), "w") as f:
@@ -200,7 +201,7 @@ class Runner:
         if stopfile:
             open(os.path.join(d, "stop"), "w").close()
         self.nruns += 1
-        r = simrun.run_sim(self.binary, self.param, ["--task-based-rhd"] + list(args), threads=1, workdir=d, keep=True, env=env, timeout=timeout)
+        r = simrun.run_sim(self.binary, self.param, ["--task-based-rhd"] + list(args), threads=threads, workdir=d, keep=True, env=env, timeout=timeout)
         r["digests"] = digests(r["trace"])
         return r
 
@@ -317,6 +318,35 @@ def experiment(binary, cfg, root, keep_dump=True):
         else:
             prob.append(("restart:restarted-run-failed", "run restarted after a stop-file stop (cycle %d) exited with status %s: %s" % (k, r["rc"], r["log"][-300:]), {"mode": "stopfile", "k": k}))
         k += 1
+    # (4) dump written by t1 threads, restarted with t2 threads (legal since 849abf2).  Runs on several threads are not
+    # bit-identical to the 1-thread run (order of the flux sums: C10's tolerance), so what must hold exactly is
+    # "restored state = dumped state": the first digest of the restarted process equals the last digest of the process that
+    # wrote the dump (all groups; the geometry group contains the owning thread, which legitimately changes when t2 < t1)
+    kmid = max(1, N // 2)
+    for (t1, t2) in cfg.get("thread_pairs", []):
+        d = "T%d_%d" % (t1, t2)
+        r1 = R.run(d, ["--number-of-steps", str(kmid)], threads=t1)
+        if r1["rc"] != 0 or r1["timed_out"]:
+            prob.append(("restart:run-failed", "run on %d threads stopped with --number-of-steps %d exited with status %s: %s" % (t1, kmid, r1["rc"], r1["log"][-300:]), {"mode": "threads", "k": kmid, "threads": [t1, t2]}))
+            continue
+        r2 = R.run(d, ["--restart", ".", "--number-of-steps", str(min(N, kmid + 2))], threads=t2)
+        res["restarts"] += 1
+        br("threads-%s" % ("same" if t1 == t2 else "more" if t2 > t1 else "fewer"))
+        if r2["rc"] != 0 or r2["timed_out"]:
+            prob.append(("restart:restarted-run-failed:threads", "dump written by %d threads, restarted with %d threads: exit status %s%s: %s" % (t1, t2, r2["rc"], " (timeout)" if r2["timed_out"] else "", r2["log"][-300:]),
+                         {"mode": "threads", "k": kmid, "threads": [t1, t2]}))
+            continue
+        a, b2 = r1["digests"].get((1, kmid)), r2["digests"].get((0, kmid))
+        if a is None or b2 is None:
+            prob.append(("restart:restarted-state-missing", "threads %d -> %d: no digest of the dumped / restored state at step %d" % (t1, t2, kmid), {"mode": "threads", "k": kmid, "threads": [t1, t2]}))
+            continue
+        res["compared"] += 1
+        f = diff_fields(b2, a)
+        if t2 < t1:
+            f = [x for x in f if not x.startswith("geometry")]
+        if f:
+            prob.append(("restart:restored-state-differs:threads", "dump written by %d threads after step %d, restarted with %d threads: the restored state differs from the dumped state in: %s" % (t1, kmid, t2, ", ".join(f)),
+                         {"mode": "threads", "k": kmid, "threads": [t1, t2]}))
     res["runs"] = R.nruns + R2.nruns
     return res
 
@@ -364,6 +394,14 @@ def translator_oracles(ctx, info):
             ctx.violation("schema:write-read-mismatch:%s" % n,
                           "%s: the items written by write_restart_file are not the items read by the restart constructor (%s)" % (n, (info.get("diff", {}).get(n) or "see Gen/RestartSchemas.lean: %s_write vs %s_read" % (g.lean_name(n), g.lean_name(n)))),
                           {"class": n, "generated": "lean/CMacVerif/Gen/RestartSchemas.lean", "theorem": "schemas_match"})
+    from collections import Counter
+    ctx.cov["translator"]["members"] = dict(Counter(r[3] for r in info["members"]))
+    ctx.cov["translator"]["members_not_stored"] = ["%s::%s %s (%s)" % (r[0], r[1], r[3], r[4][:120]) for r in info["members"] if r[3] not in ("stored",)][:80]
+    for (c, m, t, k, d) in info["members"]:
+        if k == "UNCLASSIFIED":
+            ctx.violation("member:unclassified:%s::%s" % (c, m),
+                          "data member %s::%s (%s) is neither written to the restart file, nor recomputed / reset by the restart constructor, nor rebuilt from the parameter file, nor excluded by the property: %s" % (c, m, t, d),
+                          {"class": c, "member": m, "type": t, "detail": d, "theorem": "all_members_classified", "generated": "lean/CMacVerif/Gen/RestartSchemas.lean (members)"})
     dc = {(c, lhs): (e, t) for (c, lhs, e, t) in info["derived"]["ctor"]}
     dr = {(c, lhs): (e, t) for (c, lhs, e, t) in info["derived"]["restart"]}
     for k in sorted(set(dc) | set(dr), key=str):
